@@ -272,3 +272,40 @@ package smtp
 //@ func smtp.Client.Verify
 //@   requires[C13:free] c != nil && !mw(c)
 //@   restores[C13:balanced] wheld, rheld
+
+// ---------------------------------------------------------------------------
+// C15  SCRAM authenticates the server (typestate of one exchange)
+//
+// Ghost a.verified: within the running exchange the server presented a signature equal to
+// the one computed locally over a non-empty exchange state. It is defined by the ghost
+// statement next to the comparison and cleared whenever an exchange (re)starts.
+//@ ghost field verified bool
+//@ at smtp.scramAuth.Start entry ghost[C15:g] a.verified = false
+//@ at smtp.scramAuth.initialClientMessage entry ghost[C15:g] a.verified = false
+//@ at smtp.scramAuth.handleServerValidationMessage hmac.Equal#1 after ghost[C15:g] a.verified = result && len(a.saltedPwd) > 0 && len(a.authMessage) > 0 && len(a.nonce) > 0
+//@ func smtp.scramAuth.Start
+//@   requires[C15:wf] a != nil
+//@   ensures[C15:restart] !a.verified
+//@ func smtp.scramAuth.reset
+//@   requires[C15:wf] a != nil
+//@ func smtp.scramAuth.initialClientMessage
+//@   requires[C15:wf] a != nil
+//@   ensures[C15:restart] !a.verified
+//@   ensures[C15:nonempty] r1 == nil ==> len(r0) > 0
+//@ func smtp.scramAuth.handleServerFirstResponse (fromServer) (resp, err)
+//@   requires[C15:wf] a != nil && a.h != nil
+//@   ensures[C15:nonce-extends] err == nil ==> len(old(a.nonce)) > 0 && len(a.nonce) >= len(old(a.nonce))
+//@   ensures[C15:state-set] err == nil ==> len(a.nonce) > 0 && len(a.authMessage) > 0
+//@   ensures[C15:no-verdict] a.verified == old(a.verified)
+//@   ensures[C15:nonempty] err == nil ==> len(resp) > 0
+//@ func smtp.scramAuth.handleServerValidationMessage (fromServer) (resp, err)
+//@   requires[C15:wf] a != nil && len(fromServer) >= 2
+//@   ensures[C15:verified] err == nil ==> a.verified
+//@   ensures[C15:ack-only-when-verified] resp != nil ==> a.verified
+//@ func smtp.scramAuth.computeServerSignature
+//@   requires[C15:wf] a != nil
+//@   ensures[C15:pure] a.verified == old(a.verified) && a.saltedPwd == old(a.saltedPwd) && a.authMessage == old(a.authMessage) && a.nonce == old(a.nonce)
+//@ func smtp.scramAuth.Next (fromServer, more) (resp, err)
+//@   requires[C15:wf] a != nil && a.h != nil
+//@   ensures[C15:success-means-verified] err == nil && !more ==> a.verified
+//@   ensures[C15:ack-only-when-verified] more && err == nil && len(resp) == 0 ==> a.verified
